@@ -1,0 +1,7 @@
+//go:build verif
+
+// Contracts for the verification harness in /verif (comment-only; no declarations).
+package customize
+
+//@ func Manager.GetRelatedObjects(rm, parent) (r, err)
+//@   requires rm != nil && parent != nil
